@@ -621,12 +621,9 @@ def _put_one_ImportFrom_level(
         start_ln = ln
         start_col = col
 
-        while dot := next_find(lines, ln, col, end_ln, end_col, '.'):
-            ln, col = dot
+        for _ in range(child):  # only the leading dots, those that follow are part of the module name
+            ln, col = next_find(lines, ln, col, end_ln, end_col, '.')  # must be there
             col += 1
-            child -= 1
-
-        assert not child
 
         self._put_src('.' * value, start_ln, start_col, ln, col, False)
 
